@@ -1390,10 +1390,12 @@ handshake_login(int dns_fd, int seed)
 
 		send_login(dns_fd, login, 16);
 
-		read = handshake_waitdns(dns_fd, in, sizeof(in), 'l', 'L', i+1);
+		read = handshake_waitdns(dns_fd, in, sizeof(in) - 1, 'l', 'L', i+1);
 
 		if (read > 0) {
 			int netmask;
+
+			in[read] = 0; /* sscanf below needs a string */
 			if (strncmp("LNAK", in, 4) == 0) {
 				fprintf(stderr, "Bad password\n");
 				return 1;
